@@ -73,12 +73,19 @@ func (s *c15File) WriteTo(w io.Writer) (int64, error) {
 
 // c15Writer: accepts bytes until failAt, then fails (short write with error).
 type c15Writer struct {
-	got    []byte
-	failAt int // -1 never
-	closed int
+	got     []byte
+	failAt  int  // -1 never
+	errFull bool // accepts every byte and still reports an error (also for empty writes)
+	writes  int
+	closed  int
 }
 
 func (w *c15Writer) Write(p []byte) (int, error) {
+	w.writes++
+	if w.errFull {
+		w.got = append(w.got, p...)
+		return len(p), errC15Dst
+	}
 	if w.failAt >= 0 && len(w.got)+len(p) > w.failAt {
 		n := w.failAt - len(w.got)
 		if n < 0 {
@@ -249,8 +256,11 @@ func VerifC15ByteStreamProduce() {
 		prod = ByteStreamProducer()
 	}
 	wc := &c15WriteCloser{c15Writer{failAt: -1}}
-	if zv.Choose("sinkFails", 2) == 1 {
+	switch zv.Choose("sinkFails", 3) {
+	case 1:
 		wc.failAt = zv.Choose("sinkFailAt", n+1)
+	case 2:
+		wc.errFull = true
 	}
 	var writer io.Writer = wc
 	plain := zv.Choose("plainWriter", 2) == 1
@@ -318,6 +328,9 @@ func VerifC15ByteStreamProduce() {
 	case wc.failAt >= 0 && wc.failAt < n:
 		zv.Reach("sink-fails")
 		zv.Assert("write-error-is-returned-not-a-shorter-success", err != nil)
+	case wc.errFull && wc.writes > 0:
+		zv.Reach("sink-reports-error-with-full-count")
+		zv.Assert("write-error-is-returned-even-when-all-bytes-were-accepted", err != nil)
 	default:
 		zv.Reach("complete")
 		zv.Assert("complete-write-succeeds", err == nil)
@@ -394,8 +407,11 @@ func VerifC15Text() {
 
 	// producer
 	w := &c15Writer{failAt: -1}
-	if zv.Choose("sinkFails", 2) == 1 {
+	switch zv.Choose("sinkFails", 3) {
+	case 1:
 		w.failAt = zv.Choose("sinkFailAt", n+1)
+	case 2:
+		w.errFull = true
 	}
 	str := string(data)
 	var payload interface{}
@@ -436,6 +452,9 @@ func VerifC15Text() {
 		zv.Assert("text-unsupported-payload-is-an-error", err != nil)
 	case w.failAt >= 0 && w.failAt < n:
 		zv.Assert("text-write-error-is-returned", err != nil)
+	case w.errFull && w.writes > 0:
+		zv.Reach("text-sink-reports-error-with-full-count")
+		zv.Assert("text-write-error-is-returned-even-when-all-bytes-were-accepted", err != nil)
 	default:
 		zv.Reach("produced")
 		zv.Assert("text-complete-write-succeeds", err == nil)
